@@ -13,12 +13,19 @@ Plain(inst) == [cls |-> inst.cls,
 Judge(e) ==
   CASE e.op = "getattr" ->
          LET r == Lookup(e.inst, e.name) IN
+         \* (whatever the name resolves to: looking it up never fails with anything but AttributeError, so that hasattr and
+         \* getattr with a default work on every instance)
+         (IF e.shadowed \/ r.k # "open"
+          THEN << <<"lookup-fails-only-with-AttributeError " \o e.inst.cls \o "." \o e.name,
+                    e.out.k # "exception" /\ e.hasattr # "exception" /\ e.default # "exception">> >>
+          ELSE <<>>) \o
          IF r.k = "open" \/ e.shadowed THEN <<>>
          ELSE << <<"flat-access " \o e.inst.cls \o "." \o e.name \o " expected " \o r.k, e.out = r>>,
                  <<"hasattr-agrees " \o e.inst.cls \o "." \o e.name, e.hasattr = (IF r.k # "attrerror" THEN "true" ELSE "false")>>,
                  <<"getattr-default " \o e.inst.cls \o "." \o e.name, (r.k = "attrerror") => e.default = "default">> >>
     [] e.op = "shortcut" ->
          LET r == Shortcut(e.inst, e.name) IN
+         << <<"shortcut-fails-only-with-AttributeError " \o e.inst.cls \o "." \o e.name, e.out.k # "exception">> >> \o
          IF r.k = "open" THEN <<>>
          ELSE << <<"shortcut " \o e.inst.cls \o "." \o e.name \o " expected " \o r.k, e.out = r>>,
                  \* e.after: the receiver projected again after the call
